@@ -1103,6 +1103,12 @@ fn builders_fam(c: &mut Case) {
     scverif::builders::case(c, "C12")
 }
 
+/// the uniform api traits (Predictor / SupervisedEstimator / UnsupervisedEstimator / Transformer) behave
+/// exactly like the inherent methods
+fn api_paths_fam(c: &mut Case) {
+    scverif::apipaths::case(c, "C12")
+}
+
 fn main() {
     let args: Vec<String> = std::env::args().collect();
     if args.len() >= 3 && args[1] == "--probe-build" {
@@ -1122,6 +1128,7 @@ fn main() {
             "debugging aid: with C12_TRACE set every case prints its input to stderr before the library is called (to identify an input that aborts the process)",
         ],
         families: vec![
+            Family::new("api_paths", 300, 3000, api_paths_fam),
             Family::new("builders", 300, 3000, builders_fam),
             Family::new("fit_continuous", 1200, 36000, fit_continuous),
             Family::new("fit_lattice", 1200, 36000, fit_lattice),
